@@ -54,6 +54,7 @@ type c03Params struct {
 	flat        int  // flat run: that many extra Sends at the default schedule, no choices
 	ackWhatever bool
 	group       bool // send through GroupTunnel.Send (the frame is built by the group layer)
+	allStatus   bool // the first request is acknowledged with an error status, every one of the 255 in turn
 }
 
 const c03Channel = 7
@@ -78,6 +79,7 @@ func c03Run(p c03Params) func() {
 		gw := NewGateway(sock, c03Channel)
 		firstTx := map[string]mc.Duration{}
 		menu := p.menu
+		errStatusSent := false
 		gw.OnTunnelReq = func(req *knxnet.TunnelReq, s *fakesock.Sent) {
 			if p.tcp {
 				return
@@ -87,6 +89,12 @@ func c03Run(p c03Params) func() {
 				firstTx[key] = s.T
 			}
 			ch, seq := req.Channel, req.SeqNumber
+			if p.allStatus && !errStatusSent {
+				// "acknowledgements with every status": codes the standard defines, and all the others
+				errStatusSent = true
+				c03Deliver(sock, ch, seq, uint8(1+mc.Choose(255, mc.Free)))
+				return
+			}
 			if !menu {
 				c03Deliver(sock, ch, seq, 0)
 				return
@@ -593,6 +601,8 @@ func init() {
 	register("both", &h.Scenario{Name: "C03-flat-8senders-600sends", Prop: "C03", P: 0, F: 0, D: -1, Run: c03Run(fl), Check: c03Oracle(fl)})
 	sg := c03Params{R: 100, T: 350, senders: 2, perSender: 2, menu: true, lossOnly: true, group: true}
 	register("both", &h.Scenario{Name: "C03-S2-group-tunnel-2senders-loss", Prop: "C03", P: 2, F: 2, D: 2, Run: c03Run(sg), Check: c03Oracle(sg)})
+	as := c03Params{R: 100, T: 350, senders: 1, perSender: 2, allStatus: true}
+	register("both", &h.Scenario{Name: "C03-every-error-status-in-the-acknowledgement", Prop: "C03", P: 0, F: 0, D: -1, Run: c03Run(as), Check: c03Oracle(as)})
 	s5 := c03Params{R: 100, T: 350, senders: 3, perSender: 2, tcp: true}
 	register("both", &h.Scenario{Name: "C03-S5-tcp-3senders", Prop: "C03", P: 2, F: 0, D: 2, Run: c03Run(s5), Check: c03Oracle(s5)})
 }
